@@ -176,22 +176,26 @@ PROPS = {
                    'hydraulic_gradient (three lists) and with the state after the call.',
     ),
     'C11': dict(
-        own_files=['Lemmas/LC11.v', 'Lemmas/LC11b.v', 'Props/C11.v'],
+        own_files=['Lemmas/LC11.v', 'Lemmas/LC11b.v', 'Lemmas/LC11c.v', 'Props/C11.v'],
         corr=[dict(script='corr_pump.py', n=250, n_thorough=6000)],
         search='C11.py', budget_quick=400, budget_thorough=20000,
         partial=['C11 never above the set speed in torque and power mode: PROVED (C11_power/torque_limited_not_above_set) for every pump and flow '
                  'whose required power is positive, does not fall with speed and grows at most like n^4 relative to the available power on '
                  '(0, set speed] -- a premise on the elasticity of the QP curve, which the search samples on the shipped pumps and counts '
                  '(shape-premise:holds / fails in the distribution); where it fails the clause is searched only',
-                 'C11_terminates: the damped iteration n <- n*sqrt(Pavail/P) runs on explicit fuel in the model; that it ends needs a strict '
-                 'elasticity margin (contraction) and is searched with a wall-clock guard, not proved',
+                 'C11 termination of the torque / power iteration: PROVED (C11_limited_search_terminates) under a strict shape premise -- ln of the '
+                 'headroom ratio Pavail/P falls by at least delta and at most 4 - delta per unit of ln n on (0, set speed], the required power is '
+                 'bounded and the floor n0 q(n0)^(1/delta) is above 1/60 Hz: the map is a contraction on the logarithmic scale; the search samples '
+                 'the premise on the shipped pumps with delta = 1/2 (strict-premise:holds / fails); where it fails termination is searched with '
+                 'a wall-clock guard only',
                  'curve mode relies on the bracketing root finder (scipy, oracle) answering inside its bracket'],
         level_text='Proof (model of PumpObj.Pump, all pumps / curves / modes): whatever point() returns, the flow is the requested flow, the head is '
                    'the affinity-law scaling QH[Q/(s t^2)] s^2 t^2 rho at the RETURNED speed and the power the scaling QP[Q/(s t^2)] s^3 t^5 rho; '
                    'the speed is the set speed when the mode is none or the driver can supply the power there; a speed returned by the torque / '
                    'power iteration through its loop test balances available and required power within 0.1 kW; the curve-mode result is the set '
                    'speed, a driver speed below it, or the bracketing root, hence never above the set speed; the torque / power iteration never leaves '
-                   '(0, set speed] when the required power neither falls with speed nor outgrows n^4 relative to the available power.',
+                   '(0, set speed] when the required power neither falls with speed nor outgrows n^4 relative to the available power, and it '
+                   'terminates (through its loop test) when those bounds hold with a margin delta.',
         level_note='Hand-written model compared bit for bit with Pump.point / power_required / power_available on the shipped example pumps in '
                    'all four modes (driver-limited cases included; scipy root recorded and replayed as oracle); the harness also checks that '
                    'point() leaves the pump __dict__ unchanged.',
